@@ -146,6 +146,7 @@ pub fn lift_type(reg: &LiftRegistry, ty: &syn::Type, self_ty: Option<&str>) -> R
                             "real" => return Ok("RArr".into()),
                             "Rec" => return Ok("OArr".into()),
                             "int" => return Ok("Seq<int>".into()),
+                            t if t.starts_with("L_") => return Ok(format!("Seq<{t}>")),
                             _ => {}
                         }
                     }
@@ -541,7 +542,7 @@ impl<'a> Lifter<'a> {
                     return Ok(v(full.clone(), ty));
                 }
                 // L21: a module constant (SCREAMING_CASE, single segment) is an uninterpreted real constant
-                if p.path.segments.len() == 1 && s.len() > 1 && s.chars().all(|c| c.is_ascii_uppercase() || c.is_ascii_digit() || c == '_') {
+                if p.path.segments.len() == 1 && (s.len() > 1 || self.consts.contains_key(&s)) && s.chars().all(|c| c.is_ascii_uppercase() || c.is_ascii_digit() || c == '_') {
                     // `const_values` (directive flag): a module constant whose initialiser is made of literals, other
                     // constants and arithmetic keeps its value
                     if let Some(init) = self.consts.get(&s).cloned() {
@@ -552,6 +553,15 @@ impl<'a> Lifter<'a> {
                             self.env = saved_env;
                             self.const_stack.pop();
                             if let Ok(val) = val {
+                                if val.ty == "RArr" {
+                                    // a constant table (`const A: [f64; 7] = [..]`): an array constant with its entries
+                                    let decl = format!("pub open spec fn K_{s}() -> RArr {{ {} }}", val.text);
+                                    if !self.havocs.contains(&decl) {
+                                        self.havocs.push(decl);
+                                    }
+                                    self.note("L21", e.span(), &format!("module constant table `{s}` lifted with its entries"));
+                                    return Ok(v(format!("K_{s}()"), "RArr"));
+                                }
                                 if val.ty == "real" {
                                     // a literal value is hidden behind `reveal` (big rationals make non-linear queries
                                     // explode); relations between constants (`T0_2 = T0 * T0`) stay visible
@@ -1245,6 +1255,52 @@ impl<'a> Lifter<'a> {
         }
         Some((acc, lets.to_vec(), (*b.right).clone(), (**lo).clone(), (**hi).clone()))
     }
+    /// L24b: `for i in lo..hi { BODY }` where BODY consists of `let`s, `acc += e;` statements on outer real variables and
+    /// nested loops of the same form, and the accumulators are not read: (accumulators, lo, hi)
+    fn multi_accumulation_loop(&self, f: &syn::ExprForLoop) -> Option<(Vec<String>, syn::Expr, syn::Expr)> {
+        let syn::Pat::Ident(_) = &*f.pat else { return None };
+        let mut range = &*f.expr;
+        while let syn::Expr::Paren(p) = range {
+            range = &p.expr;
+        }
+        let syn::Expr::Range(r) = range else { return None };
+        if !matches!(r.limits, syn::RangeLimits::HalfOpen(_)) {
+            return None;
+        }
+        let (lo, hi) = (r.start.as_ref()?, r.end.as_ref()?);
+        let accs = Self::assigned_vars(&f.body);
+        if accs.is_empty() || !accs.iter().all(|a| self.lookup(a).as_deref() == Some("real")) {
+            return None;
+        }
+        fn shape_ok(b: &syn::Block, accs: &[String]) -> bool {
+            b.stmts.iter().all(|st| match st {
+                syn::Stmt::Local(l) => {
+                    // a `let` must not mention an accumulator
+                    let ids = Lifter::idents_of(l);
+                    !accs.iter().any(|a| ids.contains(a))
+                }
+                syn::Stmt::Expr(syn::Expr::Binary(bin), _) if matches!(bin.op, syn::BinOp::AddAssign(_)) => {
+                    let syn::Expr::Path(p) = &*bin.left else { return false };
+                    let Some(id) = p.path.get_ident() else { return false };
+                    let rhs = Lifter::idents_of(&bin.right);
+                    accs.contains(&id.to_string()) && !accs.iter().any(|a| rhs.contains(a))
+                }
+                syn::Stmt::Expr(syn::Expr::ForLoop(inner), _) => {
+                    let mut rg = &*inner.expr;
+                    while let syn::Expr::Paren(p) = rg {
+                        rg = &p.expr;
+                    }
+                    let hdr = Lifter::idents_of(rg);
+                    matches!(&*inner.pat, syn::Pat::Ident(_)) && matches!(rg, syn::Expr::Range(_)) && !accs.iter().any(|a| hdr.contains(a)) && shape_ok(&inner.body, accs)
+                }
+                _ => false,
+            })
+        }
+        if !shape_ok(&f.body, &accs) {
+            return None;
+        }
+        Some((accs, (**lo).clone(), (**hi).clone()))
+    }
     fn assigned_vars(b: &syn::Block) -> Vec<String> {
         struct A(Vec<String>);
         impl<'ast> syn::visit::Visit<'ast> for A {
@@ -1335,6 +1391,37 @@ impl<'a> Lifter<'a> {
         let hs = self.hoist.pop().unwrap();
         let r = r?;
         Ok(self.wrap_hoists(hs, r))
+    }
+
+    /// `for i in a..b` / `a..=b` with integer literals, at most 16 iterations, body without control-flow escapes
+    fn literal_range(f: &syn::ExprForLoop) -> Option<(i64, i64)> {
+        let mut r = &*f.expr;
+        while let syn::Expr::Paren(p) = r {
+            r = &p.expr;
+        }
+        let syn::Expr::Range(rg) = r else { return None };
+        let lit = |e: &Option<Box<syn::Expr>>| -> Option<i64> {
+            match e.as_deref() {
+                Some(syn::Expr::Lit(syn::ExprLit { lit: syn::Lit::Int(i), .. })) => i.base10_parse().ok(),
+                _ => None,
+            }
+        };
+        let (lo, hi) = (lit(&rg.start)?, lit(&rg.end)?);
+        let hi = if matches!(rg.limits, syn::RangeLimits::Closed(_)) { hi + 1 } else { hi };
+        if hi < lo || hi - lo > 16 || !matches!(&*f.pat, syn::Pat::Ident(_)) {
+            return None;
+        }
+        struct Esc(bool);
+        impl<'ast> syn::visit::Visit<'ast> for Esc {
+            fn visit_expr_break(&mut self, _: &'ast syn::ExprBreak) { self.0 = true; }
+            fn visit_expr_continue(&mut self, _: &'ast syn::ExprContinue) { self.0 = true; }
+            fn visit_expr_return(&mut self, _: &'ast syn::ExprReturn) { self.0 = true; }
+            fn visit_expr_try(&mut self, _: &'ast syn::ExprTry) { self.0 = true; }
+            fn visit_expr_closure(&mut self, _: &'ast syn::ExprClosure) {}
+        }
+        let mut esc = Esc(false);
+        syn::visit::Visit::visit_block(&mut esc, &f.body);
+        if esc.0 { None } else { Some((lo, hi)) }
     }
 
     fn rest(&mut self, rest: &[syn::Stmt], cont: Option<&dyn Fn(&mut Self) -> R<Val>>) -> R<Val> {
@@ -1642,6 +1729,27 @@ impl<'a> Lifter<'a> {
                 let r = self.rest(rest, cont)?;
                 Ok(v(format!("{{ let {name} = {}; {} }}", x.text, r.text), &r.ty))
             }
+            Expr::ForLoop(f) if Self::literal_range(f).is_some() && self.accumulation_loop(f).is_none() => {
+                // L30: a `for` over a literal range of at most 16 values whose body has no `break` / `continue` / `return`
+                // is unrolled: the body statements are spliced once per value, the loop variable bound to the literal
+                let (lo, hi) = Self::literal_range(f).unwrap();
+                let syn::Pat::Ident(pi) = &*f.pat else { return unsupported("loop pattern", e) };
+                let mut unrolled: Vec<syn::Stmt> = Vec::new();
+                for k in lo..hi {
+                    let bind: syn::Stmt = syn::parse_str(&format!("let {} = {k};", pi.ident)).map_err(|e| e.to_string())?;
+                    unrolled.push(bind);
+                    for st in &f.body.stmts {
+                        // a trailing expression statement of the body is a statement of the unrolled sequence
+                        match st {
+                            syn::Stmt::Expr(x, None) => unrolled.push(syn::Stmt::Expr(x.clone(), Some(Default::default()))),
+                            other => unrolled.push(other.clone()),
+                        }
+                    }
+                }
+                self.note("L30", e.span(), &format!("loop over the literal range {lo}..{hi} unrolled"));
+                unrolled.extend(rest.iter().cloned());
+                return self.stmts_inner(&unrolled, cont);
+            }
             Expr::ForLoop(f) if self.scatter_loop(f).is_some() => {
                 // L27: `for (i, &j) in list.iter().enumerate() { arr.set(j, e(i)) }` (or `arr[j] = e(i)`): the array with
                 // the elements at list[0], list[1], .. replaced in this order (a later i wins)
@@ -1715,6 +1823,65 @@ impl<'a> Lifter<'a> {
                 self.bind(&acc, "real");
                 let r = self.rest(rest, cont)?;
                 Ok(v(format!("{{ let {acc} = {acc} + {sum}; {} }}", r.text), &r.ty))
+            }
+            Expr::ForLoop(f) if self.multi_accumulation_loop(f).is_some() => {
+                // L24b: several accumulators and / or nested accumulation loops: every accumulator a becomes
+                // a + sum_i S_a(i), where S_a(i) is the value the body gives an accumulator that starts at zero
+                let (accs, lo, hi) = self.multi_accumulation_loop(f).unwrap();
+                let syn::Pat::Ident(pi) = &*f.pat else { unreachable!() };
+                let iv = pi.ident.to_string();
+                let lo_v = self.expr(&lo)?;
+                let hi_v = self.expr(&hi)?;
+                if lo_v.ty != "int" || hi_v.ty != "int" {
+                    return unsupported("accumulation loop bounds", e);
+                }
+                let mut sums: Vec<(String, String)> = Vec::new();
+                for a in &accs {
+                    // every accumulator starts at zero inside the summand (only the value of `a` is used)
+                    let mut stmts: Vec<syn::Stmt> = Vec::new();
+                    for b in &accs {
+                        stmts.push(syn::parse_str(&format!("let mut {b} = 0.0;")).map_err(|e| e.to_string())?);
+                    }
+                    for st in &f.body.stmts {
+                        match st {
+                            syn::Stmt::Expr(x, None) => stmts.push(syn::Stmt::Expr(x.clone(), Some(Default::default()))),
+                            other => stmts.push(other.clone()),
+                        }
+                    }
+                    stmts.push(syn::Stmt::Expr(syn::parse_str(a).map_err(|e| e.to_string())?, None));
+                    self.closure_base.push(self.env.len());
+                    self.env.push(HashMap::new());
+                    self.bind(&iv, "int");
+                    let body = self.stmts_with_cont(&stmts, None);
+                    self.env.pop();
+                    self.closure_base.pop();
+                    let body = body?;
+                    if body.ty != "real" {
+                        return Err(format!("construct outside rule list (lift): accumulation loop with summand of type {}", body.ty));
+                    }
+                    let sum = if lo_v.text == "0int" {
+                        format!("rsum({}, |{iv}: int| {})", hi_v.text, body.text)
+                    } else {
+                        format!("rsum({1} - {0}, |k__: int| {{ let {iv} = {0} + k__; {2} }})", lo_v.text, hi_v.text, body.text)
+                    };
+                    sums.push((a.clone(), sum));
+                }
+                self.note("L24", e.span(), "accumulation loop (several accumulators / nested) lifted to sums over the index range");
+                for a in &accs {
+                    self.bind(a, "real");
+                }
+                let r = self.rest(rest, cont)?;
+                // the sums are formed from the values before the loop (the summands do not read the accumulators), then
+                // the accumulators are rebound, then the rest follows
+                let mut binds = String::new();
+                for (a, _) in &sums {
+                    binds.push_str(&format!("let {a} = {a} + {a}__sum; "));
+                }
+                let mut out = format!("{{ {binds}{} }}", r.text);
+                for (a, sum) in sums.iter().rev() {
+                    out = format!("{{ let {a}__sum = {sum}; {out} }}");
+                }
+                Ok(v(out, &r.ty))
             }
             Expr::ForLoop(_) | Expr::While(_) | Expr::Loop(_) => {
                 // L6: havoc every variable assigned in the loop
@@ -2176,6 +2343,10 @@ impl<'a> Lifter<'a> {
                 self.note("L11", whole.span(), "unit constructor erased");
                 return self.expr(&c.args[0]);
             }
+            // `D::zero()` / `D::one()` of a (dual-number) type lifted to real
+            "zero" | "one" if p.path.segments.len() == 2 && c.args.is_empty() && self.reg.types.get(&first).map(|t| t == "real").unwrap_or(false) => {
+                return Ok(v(if last == "zero" { "0real" } else { "1real" }.to_string(), "real"));
+            }
             // `D::from(x)` where the (dual-number) type D is lifted to real and x is a real: the identity
             "from" if p.path.segments.len() == 2 && c.args.len() == 1 && self.reg.types.get(&first).map(|t| t == "real").unwrap_or(false) => {
                 let x = self.expr(&c.args[0])?;
@@ -2396,6 +2567,44 @@ impl<'a> Lifter<'a> {
 
     fn method(&mut self, m: &syn::ExprMethodCall, whole: &syn::Expr) -> R<Val> {
         let name = m.method.to_string();
+        // L31: `a2.outer_iter().zip(w).fold(<zeros>, |acc, (row, x)| acc + &row * x)`: the weighted sum of the rows of a
+        // two-dimensional array, sum_s a2[s, g] * w[s] for every column g
+        if name == "fold" && m.args.len() == 2 {
+            if let syn::Expr::MethodCall(z) = &*m.receiver {
+                if z.method == "zip" && z.args.len() == 1 {
+                    if let syn::Expr::MethodCall(oi) = &*z.receiver {
+                        if oi.method == "outer_iter" && oi.args.is_empty() {
+                            let a2 = self.expr(&oi.receiver)?;
+                            let w = self.expr(&z.args[0])?;
+                            let is_zeros = matches!(&m.args[0], syn::Expr::Call(c) if matches!(&*c.func, syn::Expr::Path(p) if p.path.segments.last().map(|s| s.ident == "zeros").unwrap_or(false)));
+                            if a2.ty == "RArr2" && w.ty == "RArr" && is_zeros {
+                                if let syn::Expr::Closure(cl) = &m.args[1] {
+                                    // the closure must be `|acc, (row, x)| acc + &row * x` (names free, `&` optional)
+                                    let names: Option<(String, String, String)> = (|| {
+                                        if cl.inputs.len() != 2 { return None; }
+                                        let acc = match &cl.inputs[0] { syn::Pat::Ident(i) => i.ident.to_string(), syn::Pat::Type(t) => match &*t.pat { syn::Pat::Ident(i) => i.ident.to_string(), _ => return None }, _ => return None };
+                                        let syn::Pat::Tuple(tp) = &cl.inputs[1] else { return None };
+                                        if tp.elems.len() != 2 { return None; }
+                                        let nm = |p: &syn::Pat| match p { syn::Pat::Ident(i) => Some(i.ident.to_string()), syn::Pat::Reference(r) => match &*r.pat { syn::Pat::Ident(i) => Some(i.ident.to_string()), _ => None }, _ => None };
+                                        Some((acc, nm(&tp.elems[0])?, nm(&tp.elems[1])?))
+                                    })();
+                                    if let Some((acc, row, x)) = names {
+                                        let body = cl.body.to_token_stream().to_string().replace(' ', "");
+                                        let shapes = [format!("{acc}+&{row}*{x}"), format!("{acc}+{row}*{x}"), format!("{acc}+&{row}*&{x}"), format!("{acc}+&{row}*{x}.clone()")];
+                                        if shapes.contains(&body) {
+                                            self.note("L31", whole.span(), "outer_iter-zip-fold lifted to the weighted sum of the rows");
+                                            let (p1, an, q1) = self.arr_bind(&a2);
+                                            let (p2, wn, q2) = self.arr_bind(&w);
+                                            return Ok(v(format!("{p1}{p2}RArr {{ len: {an}.m, at: |g__: int| rsum({an}.n, |s__: int| ({an}.at)(s__, g__) * ({wn}.at)(s__)) }}{q2}{q1}"), "RArr"));
+                                        }
+                                    }
+                                }
+                            }
+                        }
+                    }
+                }
+            }
+        }
         // L16c: `opt.map_or_else(|| d, f)` with f = `Ok` / `Some` / a one-parameter closure: match
         if name == "map_or_else" && m.args.len() == 2 {
             if let syn::Expr::Closure(dcl) = &m.args[0] {
@@ -2543,6 +2752,65 @@ impl<'a> Lifter<'a> {
                                 }
                             }
                         }
+                    }
+                }
+            }
+        }
+        // L8c: `izip!(a, b, c).map(|(x, y, &z)| e).collect()` - the values over the common index range; when e is a
+        // Result the collection is Ok(values) if every element is Ok and an error otherwise (std: FromIterator for Result)
+        if name == "collect" {
+            if let syn::Expr::MethodCall(mm) = &*m.receiver {
+                if let (true, syn::Expr::Macro(mac)) = (mm.method == "map" && mm.args.len() == 1, &*mm.receiver) {
+                    if Self::path_str(&mac.mac.path) == "izip" {
+                        let parser = syn::punctuated::Punctuated::<syn::Expr, syn::token::Comma>::parse_terminated;
+                        let items = syn::parse::Parser::parse2(parser, mac.mac.tokens.clone()).map_err(|e| e.to_string())?;
+                        let mut arrs: Vec<Val> = Vec::new();
+                        for it in items.iter() {
+                            arrs.push(self.expr(it)?);
+                        }
+                        let syn::Expr::Closure(cl) = &mm.args[0] else { return unsupported("izip closure", whole) };
+                        let Some(syn::Pat::Tuple(tp)) = cl.inputs.first() else { return unsupported("izip closure pattern", whole) };
+                        if tp.elems.len() != arrs.len() || cl.inputs.len() != 1 {
+                            return unsupported("izip closure arity", whole);
+                        }
+                        let mut lets = String::new();
+                        let mut lens: Vec<String> = Vec::new();
+                        self.closure_base.push(self.env.len());
+                        self.env.push(HashMap::new());
+                        for (pe, a) in tp.elems.iter().zip(arrs.iter()) {
+                            let nm = match pe {
+                                syn::Pat::Ident(i) => i.ident.to_string(),
+                                syn::Pat::Reference(r) => match &*r.pat { syn::Pat::Ident(i) => i.ident.to_string(), _ => { self.env.pop(); self.closure_base.pop(); return unsupported("izip closure pattern", whole) } },
+                                _ => { self.env.pop(); self.closure_base.pop(); return unsupported("izip closure pattern", whole) }
+                            };
+                            let (ety, acc, len) = match a.ty.as_str() {
+                                "RArr" => ("real".to_string(), format!("({}.at)(k__)", a.text), format!("{}.len", a.text)),
+                                "OArr" => ("Rec".to_string(), format!("({}.at)(k__)", a.text), format!("{}.len", a.text)),
+                                t if t.starts_with("Seq<") => (t[4..t.len() - 1].to_string(), format!("{}[k__]", a.text), format!("({}.len() as int)", a.text)),
+                                _ => { self.env.pop(); self.closure_base.pop(); return unsupported("izip operand", whole) }
+                            };
+                            self.bind(&nm, &ety);
+                            lets.push_str(&format!("let {nm} = {acc}; "));
+                            lens.push(len);
+                        }
+                        let saved = std::mem::replace(&mut self.ret_ty, "Result<real, LErr>".to_string());
+                        let body = self.scoped(&cl.body);
+                        self.ret_ty = saved;
+                        self.env.pop();
+                        self.closure_base.pop();
+                        let body = body?;
+                        let n = lens.iter().skip(1).fold(lens[0].clone(), |acc, l| format!("imin({acc}, {l})"));
+                        self.note("L8", whole.span(), "izip-map-collect lifted to an index function over the common index range");
+                        if body.ty == "real" {
+                            return Ok(v(format!("RArr {{ len: {n}, at: |k__: int| {{ {lets}{} }} }}", body.text), "RArr"));
+                        }
+                        if body.ty.starts_with("Result<real") {
+                            return Ok(v(
+                                format!("{{ let f__ = |k__: int| {{ {lets}{} }}; let n__ = {n}; if forall|k__: int| 0 <= k__ < n__ ==> (#[trigger] f__(k__)) is Ok {{ Ok::<RArr, LErr>(RArr {{ len: n__, at: |k__: int| f__(k__)->Ok_0 }}) }} else {{ Err::<RArr, LErr>(LErr::E) }} }}", body.text),
+                                "Result<RArr, LErr>",
+                            ));
+                        }
+                        return unsupported("izip element type", whole);
                     }
                 }
             }
@@ -2900,6 +3168,16 @@ impl<'a> Lifter<'a> {
                 }
                 return Ok(v(format!("(match {} {{ Ok(x__) => Ok(x__), Err({en}) => {} }})", recv.text, body.text), t));
             }
+            ("map", t) if t.starts_with("Result<") && m.args.len() == 1 => {
+                let inner = split_top(&t[7..t.len() - 1])[0].trim().to_string();
+                let ety = split_top(&t[7..t.len() - 1]).get(1).map(|x| x.trim().to_string()).unwrap_or("LErr".into());
+                let (pn, body) = self.closure1(&m.args[0], &inner)?;
+                return Ok(v(format!("(match {} {{ Ok({pn}) => Ok({}), Err(e__) => Err(e__) }})", recv.text, body.text), &format!("Result<{}, {ety}>", body.ty)));
+            }
+            // error types are merged into LErr: converting the error is the identity
+            ("map_err", t) if t.starts_with("Result<") && m.args.len() == 1 => return Ok(recv),
+            // L11: a quantity converted to a unit is the quantity divided by the unit
+            ("convert_to", "real") if args.len() == 1 && args[0].ty == "real" => return Ok(v(format!("({} / {})", recv.text, args[0].text), "real")),
             ("or", t) if t.starts_with("Option<") && args.len() == 1 && args[0].ty == t => {
                 return Ok(v(format!("(match {} {{ Some(x__) => Some(x__), None => {} }})", recv.text, args[0].text), t));
             }
@@ -3455,8 +3733,28 @@ pub fn lift_fn(ctx: &mut Ctx, blk: &Block) -> Result<(String, Value), String> {
         let mut init: syn::Expr;
         if let Some(aname) = lname.strip_prefix('=') {
             // L29c `assign_of=<var>`: the right-hand side of the first plain assignment `var = <expr>;`
-            struct FindAssign<'x> { name: String, found: Option<&'x syn::Expr> }
+            // `assign_of=<var>#<n>`: the n-th (0-based, source order) assignment; compound assignments `var += e`,
+            // `var -= e` count as assignments and give `e`
+            let (aname, nth) = match aname.split_once('#') {
+                Some((a, n)) => (a, n.parse::<usize>().map_err(|_| "assign_of=<var>#<n>")?),
+                None => (aname, 0usize),
+            };
+            struct FindAssign<'x> { name: String, found: Option<&'x syn::Expr>, skip: usize }
             impl<'ast> syn::visit::Visit<'ast> for FindAssign<'ast> {
+                fn visit_expr_binary(&mut self, b: &'ast syn::ExprBinary) {
+                    if self.found.is_none() && matches!(b.op, syn::BinOp::AddAssign(_) | syn::BinOp::SubAssign(_)) {
+                        if let syn::Expr::Path(p) = &*b.left {
+                            if p.path.is_ident(&self.name) {
+                                if self.skip == 0 {
+                                    self.found = Some(&b.right);
+                                } else {
+                                    self.skip -= 1;
+                                }
+                            }
+                        }
+                    }
+                    syn::visit::visit_expr_binary(self, b);
+                }
                 fn visit_expr_assign(&mut self, a: &'ast syn::ExprAssign) {
                     if self.found.is_none() {
                         // `var = e` or an element assignment `var[..] = e`
@@ -3466,14 +3764,18 @@ pub fn lift_fn(ctx: &mut Ctx, blk: &Block) -> Result<(String, Value), String> {
                         }
                         if let syn::Expr::Path(p) = l {
                             if p.path.is_ident(&self.name) {
-                                self.found = Some(&a.right);
+                                if self.skip == 0 {
+                                    self.found = Some(&a.right);
+                                } else {
+                                    self.skip -= 1;
+                                }
                             }
                         }
                     }
                     syn::visit::visit_expr_assign(self, a);
                 }
             }
-            let mut fa = FindAssign { name: aname.to_string(), found: None };
+            let mut fa = FindAssign { name: aname.to_string(), found: None, skip: nth };
             syn::visit::Visit::visit_block(&mut fa, f.block);
             let Some(r) = fa.found else { return Err(format!("lost anchor: no assignment to `{aname}` in {path}")) };
             init = r.clone();
@@ -3515,6 +3817,15 @@ pub fn lift_fn(ctx: &mut Ctx, blk: &Block) -> Result<(String, Value), String> {
             fn visit_expr_path(&mut self, p: &'ast syn::ExprPath) {
                 if let Some(i) = p.path.get_ident() {
                     self.0.push(i.to_string());
+                }
+            }
+            // the name of a called function is not a variable
+            fn visit_expr_call(&mut self, c: &'ast syn::ExprCall) {
+                if !matches!(&*c.func, syn::Expr::Path(_)) {
+                    syn::visit::Visit::visit_expr(self, &c.func);
+                }
+                for a in &c.args {
+                    syn::visit::Visit::visit_expr(self, a);
                 }
             }
         }
